@@ -37,6 +37,9 @@ def strategy(tier):
     @st.composite
     def cases(draw):
         spec, focus = draw(gen.specs_and_focus(opts, 8))
+        if draw(st.integers(0, 5)) == 0:
+            # Count(transform) templates in the sparse containers: bins the clone creates later must follow them
+            spec = draw(gen.with_transform_templates(spec))
         if _qbearing(spec) and draw(st.integers(0, 5)) == 0:
             # a bare Count visited after a quantity-bearing sibling: the only place where fill.numpy hands a *scalar*
             # weight to a Count, whose transform is recognised by object identity (lost by unpickling)
